@@ -80,9 +80,12 @@ def run_case(case: dict) -> dict:
         step[0] += 1
         return fn_api and step[0] % 2 == 0
 
+    held = [None]
     for op in case["ops"]:
         o = op["op"]
         e = {"e": o, "ok": True}
+        if o not in ("bits_set", "bits_get"):
+            held[0] = None
         try:
             if o == "setraw":
                 e["v"] = lb(op["v"])
@@ -153,14 +156,20 @@ def run_case(case: dict) -> dict:
                     key = op["name"]
                     sib.decode_bits(0, key)
                     sib.encode_bits(0, key, 0)
+                # one view object kept over consecutive bit-field operations (b = var.bits; b[..] = x; b[..]):
+                # it must stay in step with what it wrote itself; any other operation in between drops it
+                view = held[0] if case.get("held") and held[0] is not None else var.bits
+                if case.get("held"):
+                    held[0] = view
                 if o == "bits_set":
                     e["val"] = lb(op["val"])
-                    var.bits[key] = op["val"]
+                    view[key] = op["val"]
                     e["after"] = lb(var.raw)
                 else:
-                    e["val"] = lb(var.bits[key])
+                    e["val"] = lb(view[key])
         except Exception as exc:  # noqa
             e["ok"] = False
+            held[0] = None
             e["repr"] = f"{type(exc).__name__}: {exc}"[:120]
             for k in ("after", "val", "v"):
                 e.setdefault(k, lb(0))
